@@ -660,6 +660,37 @@ Proof.
   rewrite !app_nth2 by lia. replace (S (length p) - length p)%nat with 1%nat by lia. rewrite Nat.sub_diag. reflexivity.
 Qed.
 
+(* trailing parts that are compatible axis by axis extend a broadcast *)
+Lemma np_broadcast2_app_pair a b t u bs w : length t = length u ->
+  np_broadcast2 a b = Some bs -> np_axes t u = Some w ->
+  np_broadcast2 (a ++ t) (b ++ u) = Some (bs ++ w).
+Proof.
+  unfold np_broadcast2. intros Hl H Hw. rewrite !app_length.
+  replace (Nat.max (length a + length t) (length b + length u)) with (Nat.max (length a) (length b) + length t)%nat by lia.
+  rewrite (pad_to_app _ a t) by lia. rewrite Hl at 1. rewrite (pad_to_app _ b u) by lia.
+  rewrite np_axes_app by (rewrite !pad_to_length; lia).
+  rewrite H, Hw. reflexivity.
+Qed.
+
+Lemma np_broadcast_to_idx_snoc_one pb i x : (length pb <= length i)%nat ->
+  np_broadcast_to_idx (pb ++ [1]) (i ++ [x]) = np_broadcast_to_idx pb i ++ [0].
+Proof.
+  intros Hl. unfold np_broadcast_to_idx. rewrite !app_length. cbn [length].
+  replace (length i + 1 - (length pb + 1))%nat with (length i - length pb)%nat by lia.
+  rewrite skipn_app. replace (length i - length pb - length i)%nat with 0%nat by lia. cbn [skipn].
+  rewrite np_bto_idx_aligned_app by (rewrite skipn_length; lia). reflexivity.
+Qed.
+
+Lemma np_broadcast2_inb a b s i : pos a -> np_broadcast2 a b = Some s -> inb i s ->
+  inb (np_broadcast_to_idx a i) a.
+Proof.
+  intros Pa H Hi. pose proof (np_broadcast2_bto_ok _ _ _ Pa H) as Hok.
+  destruct (broadcast_to_view_spec _ _ Pa Hok) as [f [_ F]]. now destruct (F i Hi).
+Qed.
+
+Lemma np_broadcast2_comm a b : pos a -> pos b -> np_broadcast2 a b = np_broadcast2 b a.
+Proof. intros Pa Pb. rewrite <- !broadcast_shape2_np by assumption. apply broadcast_shape2_comm. Qed.
+
 Section Routines.
 Variable A : Type.
 Variable zero : A.
@@ -1003,4 +1034,336 @@ Proof.
     destruct (Z.eqb_spec K K') as [<-|]; [|discriminate]. now apply dot_spec_nd.
 Qed.
 
+(* ---------- matmulv2 (tile / reshape / transpose / reshape / multiply / sum), operands of rank >= 2 ---------- *)
+Theorem matmul_v2_spec sa sb fa fb s :
+  (2 <= length sa)%nat -> (2 <= length sb)%nat -> pos sa -> pos sb ->
+  np_matmul_shape sa sb = Some s ->
+  exists m, matmul_v2 A zero add mul sa sb fa fb = Ok m /\ vshape m = s /\
+    forall i, inb i s -> vat m i = np_matmul_elem A zero add mul sa sb fa fb i.
+Proof.
+  intros La Lb Pa Pb Hs.
+  destruct (exists_last2 sa) as [pa [M [K E]]]; [lia|]. subst sa.
+  destruct (exists_last2 sb) as [pb [K' [N E]]]; [lia|]. subst sb.
+  unfold np_matmul_shape in Hs. rewrite !app_length in Hs. cbn [length] in Hs.
+  replace (length pa + 2 =? 1)%nat with false in Hs by (symmetry; apply Nat.eqb_neq; lia).
+  replace (length pb + 2 =? 1)%nat with false in Hs by (symmetry; apply Nat.eqb_neq; lia).
+  rewrite !split_last2_app in Hs.
+  destruct (Z.eqb_spec K K') as [<-|]; [|discriminate].
+  destruct (np_broadcast2 pa pb) as [bs|] eqn:Ebs; [|discriminate]. injection Hs as <-.
+  pose proof Pa as Pa'. apply pos_app in Pa' as [Ppa PMK]. pose proof Pb as Pb'. apply pos_app in Pb' as [Ppb PKN].
+  assert (HM : 1 <= M) by (inversion PMK; lia).
+  assert (HK : 1 <= K) by (inversion PMK as [|? ? ? P2]; inversion P2; lia).
+  assert (HN : 1 <= N) by (inversion PKN as [|? ? ? P2]; inversion P2; lia).
+  pose proof (np_broadcast2_length _ _ _ Ebs) as Lbs.
+  set (pam := pa ++ [M]).
+  assert (Esa : pa ++ [M; K] = pam ++ [K]) by (unfold pam; now rewrite <- app_assoc).
+  assert (Ppam : pos pam) by (unfold pam; apply pos_app; split; [assumption | repeat constructor; lia]).
+  assert (Lpam : length pam = (length pa + 1)%nat) by (unfold pam; rewrite app_length; reflexivity).
+  unfold matmul_v2, matmul_lhs_tile, matmul_lhs_reshape.
+  rewrite !app_length. cbn [length].
+  replace (2 <=? length pa + 2)%nat with true by (symmetry; apply Nat.leb_le; lia).
+  replace (2 <=? length pb + 2)%nat with true by (symmetry; apply Nat.leb_le; lia).
+  cbn [andb]. rewrite atneg_app2_1, atneg_app2_1.
+  replace (length pa + 2 - 1)%nat with (length pam) by lia.
+  rewrite Esa. rewrite firstn_app_exact.
+  unfold v_tile, v_reshape. cbn [vshape vat]. rewrite shape_tile_last.
+  set (adst := pam ++ [N; K]).
+  assert (Padst : pos adst) by (unfold adst; apply pos_app; split; [assumption | repeat constructor; lia]).
+  assert (Ptile : pos (pam ++ [K * N])) by (apply pos_app; split; [assumption | repeat constructor; nia]).
+  rewrite shape_reshape_ok; [| unfold adst, pam; destruct pa; discriminate | exact Padst | exact Ptile |].
+  2:{ unfold adst. rewrite !prod_app. cbn [prod]. ring. }
+  cbn [lift rbind]. unfold v_transpose. cbn [vshape vat].
+  rewrite shape_transpose_swap.
+  unfold matmul_rhs_reshape.
+  replace (2 <=? length adst)%nat with true by (symmetry; apply Nat.leb_le; unfold adst; rewrite app_length; simpl; lia).
+  replace (2 <=? length (pb ++ [N; K]))%nat with true by (symmetry; apply Nat.leb_le; rewrite app_length; simpl; lia).
+  cbn [andb]. rewrite app_length. cbn [length]. replace (length pb + 2 - 2)%nat with (length pb) by lia.
+  rewrite firstn_app_exact, skipn_app_exact. cbn [app].
+  set (cdst := pb ++ 1 :: [N; K]).
+  assert (Ptr : pos (pb ++ [N; K])) by (apply pos_app; split; [assumption | repeat constructor; lia]).
+  assert (Pcdst : pos cdst) by (unfold cdst; apply pos_app; split; [assumption | repeat constructor; lia]).
+  rewrite shape_reshape_ok; [| unfold cdst; destruct pb; discriminate | exact Pcdst | exact Ptr |].
+  2:{ unfold cdst. rewrite !prod_app. cbn [prod]. ring. }
+  cbn [lift rbind].
+  assert (Hb : np_broadcast2 adst cdst = Some ((bs ++ [M]) ++ [N; K])).
+  { unfold adst, cdst, pam. replace (pb ++ 1 :: [N; K]) with ((pb ++ [1]) ++ [N; K]) by (now rewrite <- app_assoc).
+    apply np_broadcast2_app_common. apply np_broadcast2_app_pair; [reflexivity | assumption |].
+    cbn. rewrite orb_true_r. cbn. now rewrite Z.max_l by lia. }
+  destruct (v_mul_spec A mul
+      (View adst (fun i => fa (tile_idx (pam ++ [K]) (reshape_idx (pam ++ [K * N]) adst i))))
+      (View cdst (fun i => fb (scatter (reshape_idx (pb ++ [N; K]) cdst i) (swap_last2 (length pb + 2)))))
+      _ Padst Pcdst Hb) as [m [Em [Sm Fm]]].
+  rewrite Em. cbn [lift rbind]. eexists. split; [reflexivity|].
+  assert (Sm' : vshape m = (bs ++ [M; N]) ++ [K]) by (rewrite Sm; now rewrite <- !app_assoc).
+  destruct (v_sum_last1_spec A zero add add_assoc add_0_r m _ K Sm') as [S1 F1].
+  split; [exact S1|]. intros i Hi. rewrite F1.
+  pose proof (inb_length _ _ Hi) as Hli. rewrite app_length in Hli. cbn [length] in Hli.
+  destruct (exists_last2 i) as [bi [r [c E]]]; [lia|]. subst i.
+  rewrite app_length in Hli. cbn [length] in Hli.
+  destruct (inb_app_inv _ _ _ Hi) as [Hbi Hrc].
+  rewrite firstn_app_exact' in Hbi by lia. rewrite skipn_app_exact' in Hrc by lia.
+  inversion Hrc as [|? ? ? ? Hr Hc']; subst. inversion Hc' as [|? ? ? ? Hc _]; subst.
+  unfold np_matmul_elem. rewrite <- Esa. rewrite !split_last2_app.
+  f_equal. apply map_ext_in. intros k Hk. apply in_zrange in Hk.
+  assert (Hfull : inb ((bi ++ [r; c]) ++ [k]) ((bs ++ [M]) ++ [N; K])).
+  { rewrite <- !app_assoc. apply inb_app; [assumption|]. repeat constructor; lia. }
+  destruct (Fm _ Hfull) as [-> _]. cbn [vshape vat].
+  pose proof (np_broadcast2_inb _ _ _ _ Ppa Ebs Hbi) as Ia.
+  assert (Ebs' : np_broadcast2 pb pa = Some bs) by (rewrite np_broadcast2_comm; assumption).
+  pose proof (np_broadcast2_inb _ _ _ _ Ppb Ebs' Hbi) as Ib.
+  set (ja := np_broadcast_to_idx pa bi) in *. set (jb := np_broadcast_to_idx pb bi) in *.
+  f_equal.
+  - f_equal.
+    assert (E1 : np_broadcast_to_idx adst ((bi ++ [r; c]) ++ [k]) = (ja ++ [r]) ++ [c; k]).
+    { unfold adst, pam.
+      replace ((pa ++ [M]) ++ [N; K]) with (((pa ++ [M]) ++ [N]) ++ [K]) by (now rewrite <- !app_assoc).
+      replace (bi ++ [r; c]) with ((bi ++ [r]) ++ [c]) by (now rewrite <- !app_assoc).
+      rewrite np_broadcast_to_idx_snoc by (rewrite ?app_length; cbn [length]; lia).
+      rewrite np_broadcast_to_idx_snoc by (rewrite ?app_length; cbn [length]; lia).
+      rewrite np_broadcast_to_idx_snoc by lia. now rewrite <- !app_assoc. }
+    rewrite E1.
+    rewrite (reshape_idx_spec (pam ++ [K * N]) adst _ ((ja ++ [r]) ++ [c * K + k])).
+    + rewrite tile_idx_last by (unfold pam; apply inb_snoc; [assumption | lia]).
+      rewrite <- app_assoc. do 2 f_equal. cbn [app]. do 2 f_equal.
+      rewrite Z.add_comm, Z.mod_add by lia. apply Z.mod_small; lia.
+    + exact Ptile.
+    + exact Padst.
+    + unfold adst, pam. apply inb_app; [apply inb_snoc; [assumption | lia] | repeat constructor; lia].
+    + unfold pam. apply inb_snoc; [apply inb_snoc; [assumption | lia] | nia].
+    + assert (Hlen : length (ja ++ [r]) = length pam) by (unfold pam; rewrite !app_length; cbn [length]; now rewrite (inb_length _ _ Ia)).
+      unfold adst. rewrite !horner_app by exact Hlen. cbn [horner]. ring.
+  - f_equal.
+    assert (E2 : np_broadcast_to_idx cdst ((bi ++ [r; c]) ++ [k]) = (jb ++ [0]) ++ [c; k]).
+    { unfold cdst.
+      replace (pb ++ 1 :: [N; K]) with (((pb ++ [1]) ++ [N]) ++ [K]) by (now rewrite <- !app_assoc).
+      replace (bi ++ [r; c]) with ((bi ++ [r]) ++ [c]) by (now rewrite <- !app_assoc).
+      rewrite np_broadcast_to_idx_snoc by (rewrite ?app_length; cbn [length]; lia).
+      rewrite np_broadcast_to_idx_snoc by (rewrite ?app_length; cbn [length]; lia).
+      rewrite np_broadcast_to_idx_snoc_one by lia. now rewrite <- !app_assoc. }
+    rewrite E2.
+    rewrite (reshape_idx_spec (pb ++ [N; K]) cdst _ (jb ++ [c; k])).
+    + rewrite <- (inb_length _ _ Ib). apply scatter_swap.
+    + exact Ptr.
+    + exact Pcdst.
+    + unfold cdst. rewrite <- app_assoc. apply inb_app; [assumption | repeat constructor; lia].
+    + apply inb_app; [assumption | repeat constructor; lia].
+    + unfold cdst. rewrite <- app_assoc. cbn [app].
+      rewrite !horner_app by (now apply inb_length). cbn [horner]. ring.
+Qed.
+
+Corollary matmul_v2_v1_spec sa sb fa fb s :
+  (2 <= length sa)%nat -> (2 <= length sb)%nat -> pos sa -> pos sb ->
+  np_matmul_shape sa sb = Some s ->
+  exists m, matmul_v2 A zero add mul sa sb fa fb = Ok m /\ vshape m = s /\
+    forall i, inb i s -> vat m i = np_matmul_elem A zero add mul sa sb fa fb i
+                         /\ vat m i = matmul_elem A zero add mul sa sb fa fb i.
+Proof.
+  intros La Lb Pa Pb Hs.
+  destruct (matmul_v2_spec sa sb fa fb s La Lb Pa Pb Hs) as [m [E [S F]]].
+  exists m. split; [exact E|]. split; [exact S|]. intros i Hi. split; [exact (F i Hi)|].
+  rewrite (F i Hi). symmetry.
+  apply (matmul_elem_spec A zero add mul add_assoc add_0_r sa sb fa fb s i La Lb Pa Pb); [|exact Hi].
+  rewrite shape_matmul_spec by (assumption || lia). exact Hs.
+Qed.
+
 End Routines.
+
+(* ---------- kron / tensordot: what is proved is the shape of a returned view ---------- *)
+Lemma shape_reshape_pos_dst src dst d : pos dst -> shape_reshape src dst = Some d -> d = dst.
+Proof.
+  intros Pd H. unfold shape_reshape in H.
+  repeat match type of H with (if ?c then _ else _) = _ => destruct c; [discriminate|] end.
+  repeat match type of H with (if ?c then _ else _) = _ => destruct c; try discriminate end.
+  injection H as <-. rewrite <- (map_id dst) at 2. apply map_ext_in. intros x Hin.
+  unfold pos in Pd. rewrite Forall_forall in Pd. specialize (Pd x Hin).
+  replace (x =? -1) with false by (symmetry; apply Z.eqb_neq; lia). reflexivity.
+Qed.
+
+Lemma combine_ones_l l : map (fun p => fst p * snd p) (combine (repeat 1 (length l)) l) = l.
+Proof. induction l as [|z l IH]; [reflexivity|]. cbn [length repeat combine map fst snd]. rewrite IH. f_equal. lia. Qed.
+Lemma combine_ones_r l : map (fun p => fst p * snd p) (combine l (repeat 1 (length l))) = l.
+Proof. induction l as [|z l IH]; [reflexivity|]. cbn [length repeat combine map fst snd]. rewrite IH. f_equal. lia. Qed.
+
+Lemma tile_shape_rev_mul a : forall b,
+  tile_shape_rev a b =
+  map (fun p => fst p * snd p)
+      (combine (a ++ repeat 1 (Nat.max (length a) (length b) - length a))
+               (b ++ repeat 1 (Nat.max (length a) (length b) - length b))).
+Proof.
+  induction a as [|x a IH]; intros [|y b].
+  - reflexivity.
+  - cbn [tile_shape_rev]. change (length []) with 0%nat. rewrite Nat.max_0_l, Nat.sub_0_r, Nat.sub_diag.
+    cbn [repeat app]. rewrite app_nil_r. now rewrite combine_ones_l.
+  - cbn [tile_shape_rev]. change (length []) with 0%nat. rewrite Nat.max_0_r, Nat.sub_0_r, Nat.sub_diag.
+    cbn [repeat app]. rewrite app_nil_r. now rewrite combine_ones_r.
+  - cbn [tile_shape_rev length app combine map fst snd]. rewrite <- Nat.succ_max_distr.
+    replace (S (Nat.max (length a) (length b)) - S (length a))%nat with (Nat.max (length a) (length b) - length a)%nat by lia.
+    replace (S (Nat.max (length a) (length b)) - S (length b))%nat with (Nat.max (length a) (length b) - length b)%nat by lia.
+    now rewrite <- IH.
+Qed.
+
+Lemma combine_rev {T U} (a : list T) : forall (b : list U), length a = length b ->
+  combine (rev a) (rev b) = rev (combine a b).
+Proof.
+  induction a as [|x a IH]; intros [|y b] H; simpl in *; try discriminate; [reflexivity|].
+  rewrite combine_app by (rewrite !rev_length; lia). rewrite IH by lia. reflexivity.
+Qed.
+
+(* kron_dst_reshape (the shape handed to the final reshape) is NumPy's kron shape *)
+Lemma kron_dst_reshape_np a b : kron_dst_reshape a b = np_kron_shape a b.
+Proof.
+  unfold kron_dst_reshape, shape_tile, np_kron_shape. rewrite tile_shape_rev_mul. rewrite !rev_length.
+  set (n := Nat.max (length a) (length b)).
+  replace (rev a ++ repeat 1 (n - length a)) with (rev (pad_to n a)) by (unfold pad_to; now rewrite rev_app_distr, rev_repeat).
+  replace (rev b ++ repeat 1 (n - length b)) with (rev (pad_to n b)) by (unfold pad_to; now rewrite rev_app_distr, rev_repeat).
+  rewrite combine_rev by (rewrite !pad_to_length; lia). rewrite map_rev. apply rev_involutive.
+Qed.
+
+Lemma np_kron_shape_pos a b : pos a -> pos b -> pos (np_kron_shape a b).
+Proof.
+  intros Pa Pb. unfold np_kron_shape. set (n := Nat.max (length a) (length b)).
+  assert (P1 : pos (pad_to n a)) by (unfold pad_to; apply pos_app; split; [apply pos_ones | assumption]).
+  assert (P2 : pos (pad_to n b)) by (unfold pad_to; apply pos_app; split; [apply pos_ones | assumption]).
+  revert P1 P2. generalize (pad_to n a) (pad_to n b). intros l1.
+  induction l1 as [|x l1 IH]; intros [|y l2] H1 H2; cbn [combine map]; try constructor.
+  - inversion H1; inversion H2; subst. cbn [fst snd]. nia.
+  - inversion H1; inversion H2; subst. now apply IH.
+Qed.
+
+(* ---------- counting the axes that are not contracted ---------- *)
+Lemma filter_lt_succ l : nodupb l = true -> forall d,
+  length (filter (fun x => x <? S d)%nat l) =
+  (length (filter (fun x => x <? d)%nat l) + (if existsb (Nat.eqb d) l then 1 else 0))%nat.
+Proof.
+  induction l as [|x t IH]; intros Hn d; [reflexivity|].
+  cbn [nodupb] in Hn. apply andb_prop in Hn as [Hx Ht]. apply negb_true_iff in Hx.
+  cbn [filter existsb]. specialize (IH Ht d).
+  destruct (Nat.ltb_spec x (S d)); destruct (Nat.ltb_spec x d); destruct (Nat.eqb_spec d x); cbn [length orb]; try lia.
+  subst x. rewrite Hx in IH. lia.
+Qed.
+
+Lemma free_axes_count l : nodupb l = true -> forall d,
+  (length (free_axes_of d l) + length (filter (fun x => x <? d)%nat l) = d)%nat.
+Proof.
+  intros Hn. unfold free_axes_of. induction d as [|d IH].
+  - cbn [seq filter length]. induction l as [|x t IHt]; [reflexivity|]. cbn [nodupb] in Hn.
+    apply andb_prop in Hn as [_ Ht]. cbn [filter]. now apply IHt.
+  - rewrite seq_S, filter_app, app_length. cbn [Nat.add filter]. rewrite filter_lt_succ by assumption.
+    destruct (existsb (Nat.eqb d) l); cbn [negb length]; lia.
+Qed.
+
+Lemma filter_all {T} (f : T -> bool) l : forallb f l = true -> filter f l = l.
+Proof.
+  induction l as [|x t IH]; [reflexivity|]. cbn [forallb filter]. intros H. apply andb_prop in H as [Hx Ht].
+  rewrite Hx. now rewrite IH.
+Qed.
+
+Lemma free_axes_length d l : nodupb l = true -> forallb (fun ax => ax <? d)%nat l = true ->
+  length (free_axes_of d l) = (d - length l)%nat.
+Proof.
+  intros Hn Hr. pose proof (free_axes_count l Hn d) as H. rewrite (filter_all _ _ Hr) in H. lia.
+Qed.
+
+Lemma free_axes_in_range d l : forallb (fun ax => ax <? d)%nat (free_axes_of d l) = true.
+Proof.
+  apply forallb_forall. intros x Hx. unfold free_axes_of in Hx. apply filter_In in Hx as [Hx _].
+  apply in_seq in Hx. apply Nat.ltb_lt. lia.
+Qed.
+
+Lemma extents_at_pos s axes : pos s -> forallb (fun ax => ax <? length s)%nat axes = true -> pos (extents_at s axes).
+Proof.
+  intros Hp Hr. unfold extents_at, pos. apply Forall_forall. intros x Hx. apply in_map_iff in Hx as [ax [<- Hax]].
+  rewrite forallb_forall in Hr. specialize (Hr ax Hax). apply Nat.ltb_lt in Hr.
+  unfold pos in Hp. rewrite Forall_forall in Hp. apply Hp. now apply nth_In.
+Qed.
+
+Lemma combine_eqb_eq x : forall y, length x = length y ->
+  forallb (fun p => fst p =? snd p) (combine x y) = true -> x = y.
+Proof.
+  induction x as [|a x IH]; intros [|b y] Hl H; simpl in *; try discriminate; [reflexivity|].
+  apply andb_prop in H as [Hab H]. apply Z.eqb_eq in Hab. subst b. f_equal. apply IH; [lia | assumption].
+Qed.
+
+Section Partial.
+Variable A : Type.
+Variable zero : A.
+Variables add mul : A -> A -> A.
+
+(* PARTIAL: whenever view::kron yields a view, its shape is NumPy's; that it always does, and the elements,
+   are established by the correspondence only *)
+Theorem kron_shape_partial sa sb fa fb m : pos sa -> pos sb ->
+  kron A mul sa sb fa fb = Ok m -> vshape m = np_kron_shape sa sb.
+Proof.
+  intros Pa Pb H. unfold kron in H.
+  destruct (v_reshape A (View sa fa) (kron_lhs_reshape sa (length sb))) as [a|]; [|discriminate].
+  cbn [lift rbind] in H.
+  destruct (v_mul A mul (v_tile A a sb) (View sb fb)) as [c|]; [|discriminate].
+  cbn [lift rbind] in H. unfold v_reshape in H.
+  destruct (shape_reshape (vshape (v_transpose A c (kron_dst_transpose (length sa) (length sb)))) (kron_dst_reshape sa sb)) as [d|] eqn:E;
+    [|discriminate].
+  cbn [lift] in H. injection H as <-. cbn [vshape].
+  rewrite kron_dst_reshape_np in E.
+  now apply (shape_reshape_pos_dst _ _ _ (np_kron_shape_pos _ _ Pa Pb) E).
+Qed.
+
+(* PARTIAL: tensordot with explicit (normalised, duplicate-free) axes whose paired extents agree yields a view whose
+   shape is NumPy's: free extents of a, then free extents of b.  Elements: correspondence only. *)
+Theorem tensordot_shape_partial sa sb fa fb la lb s : (1 <= length sa)%nat -> pos sa -> pos sb ->
+  np_tensordot_shape sa sb la lb = Some s ->
+  exists m, tensordot_gen A zero add mul sa sb fa fb
+              (tdot_transpose (length sa) la) (tdot_transpose (length sb) lb) (length la) = Ok m
+            /\ vshape m = s.
+Proof.
+  intros L1 Pa Pb H. unfold np_tensordot_shape in H.
+  destruct ((length la =? length lb)%nat && nodupb la && nodupb lb
+            && forallb (fun ax => (ax <? length sa)%nat) la && forallb (fun ax => (ax <? length sb)%nat) lb
+            && forallb (fun p => fst p =? snd p) (combine (extents_at sa la) (extents_at sb lb))) eqn:C; [|discriminate].
+  injection H as <-.
+  repeat (apply andb_prop in C as [C ?]). apply Nat.eqb_eq in C.
+  match goal with H : forallb _ (combine _ _) = true |- _ => rename H into Heq end.
+  match goal with H : forallb _ lb = true |- _ => rename H into Rb end.
+  match goal with H : forallb _ la = true |- _ => rename H into Ra end.
+  match goal with H : nodupb lb = true |- _ => rename H into Nb end.
+  match goal with H : nodupb la = true |- _ => rename H into Na end.
+  set (FA := extents_at sa (free_axes_of (length sa) la)). set (FB := extents_at sb (free_axes_of (length sb) lb)).
+  set (CA := extents_at sa la).
+  assert (ECB : extents_at sb lb = CA).
+  { symmetry. apply combine_eqb_eq; [unfold CA, extents_at; rewrite !map_length; exact C | exact Heq]. }
+  assert (LCA : length CA = length la) by (unfold CA, extents_at; apply map_length).
+  assert (LFB : length FB = (length sb - length la)%nat).
+  { unfold FB, extents_at. rewrite map_length, free_axes_length by assumption. lia. }
+  assert (LFA : length FA = (length sa - length la)%nat).
+  { unfold FA, extents_at. rewrite map_length, free_axes_length by assumption. lia. }
+  assert (Lla : (length la <= length sa)%nat).
+  { pose proof (free_axes_count la Na (length sa)) as G. rewrite (filter_all _ _ Ra) in G. lia. }
+  assert (PFA : pos FA) by (apply extents_at_pos; [assumption | apply free_axes_in_range]).
+  assert (PFB : pos FB) by (apply extents_at_pos; [assumption | apply free_axes_in_range]).
+  assert (PCA : pos CA) by (apply extents_at_pos; assumption).
+  assert (Ta : shape_transpose sa (tdot_transpose (length sa) la) = FA ++ CA).
+  { unfold shape_transpose, tdot_transpose. rewrite map_app. reflexivity. }
+  assert (Tb : shape_transpose sb (tdot_transpose (length sb) lb) = FB ++ CA).
+  { unfold shape_transpose, tdot_transpose. rewrite map_app. fold (extents_at sb lb). rewrite ECB. reflexivity. }
+  unfold tensordot_gen, v_transpose, v_reshape. cbn [vshape vat]. rewrite Ta, Tb.
+  assert (Edst : tdot_lhs_reshape (FA ++ CA) sb (length la) = FA ++ ones (length FB) ++ CA).
+  { unfold tdot_lhs_reshape. rewrite app_length, LCA.
+    replace (length FA + length la - length la)%nat with (length FA) by lia.
+    rewrite firstn_app_exact, skipn_app_exact. do 2 f_equal. f_equal. lia. }
+  rewrite Edst.
+  assert (Pdst : pos (FA ++ ones (length FB) ++ CA)).
+  { apply pos_app; split; [assumption|]. apply pos_app; split; [apply pos_ones | assumption]. }
+  rewrite shape_reshape_ok; [| | exact Pdst | apply pos_app; split; assumption | rewrite !prod_app, prod_ones; ring].
+  2:{ intros E. apply (f_equal (@length Z)) in E. rewrite !app_length, ones_length, LFA, LFB, LCA in E. cbn [length] in E. lia. }
+  cbn [lift rbind].
+  assert (Hb : np_broadcast2 (FA ++ ones (length FB) ++ CA) (FB ++ CA) = Some ((FA ++ FB) ++ CA)).
+  { rewrite app_assoc. apply np_broadcast2_app_common. now apply np_broadcast2_ones_mid. }
+  destruct (v_mul_spec A mul
+      (View (FA ++ ones (length FB) ++ CA) (fun i => fa (scatter (reshape_idx (FA ++ CA) (FA ++ ones (length FB) ++ CA) i) (tdot_transpose (length sa) la))))
+      (View (FB ++ CA) (fun i => fb (scatter i (tdot_transpose (length sb) lb)))) _ Pdst
+      (proj2 (pos_app _ _) (conj PFB PCA)) Hb) as [m [Em [Sm _]]].
+  rewrite Em. cbn [lift rbind]. eexists. split; [reflexivity|].
+  unfold v_sum_last. cbn [vshape]. rewrite Sm, app_length, LCA.
+  replace (length (FA ++ FB) + length la - length la)%nat with (length (FA ++ FB)) by lia.
+  apply firstn_app_exact.
+Qed.
+
+End Partial.
